@@ -29,6 +29,9 @@ func (g *deepcopyGen) GenerateType(c gengo.Context, named *types.Named) error {
 }
 
 func (g *deepcopyGen) generateType(c gengo.Context, named *types.Named) error {
+	// a field of type Box[int] depends on the methods of the generic Box
+	named = named.Origin()
+
 	if _, ok := g.processed[named]; ok {
 		return nil
 	}
